@@ -150,6 +150,9 @@ def plan(tier, seed):
             ch.append({"key": f"{base}/k1/{lab}", "kind": "dev", "base": base, "first": mi, "k": 1, "cost": len(vals) * 10})
             if k >= 2 and base in ("http", "dns"):
                 ch.append({"key": f"{base}/k2/{lab}", "kind": "dev", "base": base, "first": mi, "k": 2, "cost": len(vals) * 900})
+            elif k == 1 and base == "http" and lab in ("get", "post", "recover", "useragent", "domains", "execute", "beacon_gate"):
+                # quick tier: pairs whose first deviation is one of the seven most structured settings
+                ch.append({"key": f"{base}/k2lite/{lab}", "kind": "dev", "base": base, "first": mi, "k": 2, "lite": True, "cost": len(vals) * 100})
     ch.append({"key": "order", "kind": "order", "cost": 300})
     ch.append({"key": "uncached", "kind": "uncached", "cost": 1500})
     return ch
@@ -553,9 +556,10 @@ def chunk_dev(chunk, acc):
             acc.states += 1
             run_case(acc, cp, base, ((lab, idx, v),))
     else:
-        for v in vals:
-            for lab2, idx2, vals2 in M[chunk["first"] + 1 :]:
-                for v2 in vals2[:4]:
+        lite = chunk.get("lite")
+        for v in vals[:3] if lite else vals:
+            for lab2, idx2, vals2 in (M[: chunk["first"]] + M[chunk["first"] + 1 :]) if lite else M[chunk["first"] + 1 :]:
+                for v2 in vals2[:2] if lite else vals2[:4]:
                     acc.states += 1
                     run_case(acc, cp, base, ((lab, idx, v), (lab2, idx2, v2)))
     acc.sample({"base": base, "deviation": [lab, str(vals[0][0])], "values": len(vals)})
